@@ -49,6 +49,7 @@ def run(tier):
     _e_predictions(chk)
     _f_members(chk)
     _f_parameter_symmetry(chk)
+    _d_options_chain(chk)
     # a family served from the cache is the one generated with the options of the call (every step-control field included)
     from . import c20
     from .common import Relabel
@@ -553,6 +554,55 @@ def _e_predictions(chk):
 
 
 # ------------------------------------------------------------------------------------------------ f
+def _d_options_chain(chk):
+    """Bounds and limits of the call reach the backend: _OrbitContinuationInterface.create_problem and to_backend_inputs are
+    interpreted with symbolic options; step, target, member limit, retry limit, minimum / maximum step and shrink policy arrive in
+    the backend request, and the corrector settings of extra_params arrive in the problem, each under its own name; the stepper
+    function handed to the backend is the one the configured stepper needs."""
+    mod, cls = ri.find_def(IF, "_OrbitContinuationInterface")
+    SMIN, SMAX, SHR = sp.Symbol("STEP_MIN", positive=True), sp.Symbol("STEP_MAX", positive=True), sp.Symbol("SHRINK")
+    STEP, TGT = to_obj_array([sp.Symbol("STEP0")]), to_obj_array([[sp.Symbol("TGT_LO")], [sp.Symbol("TGT_HI")]])
+    ex = {k: sp.Symbol("X_" + k.upper()) for k in ("tol", "max_attempts", "max_delta", "order", "steps", "forward", "fd_step")}
+    for stepper in ("natural", "secant"):
+        opts = SymObj(None, {"target": TGT, "step": STEP, "max_members": 11, "max_retries_per_step": 5, "shrink_policy": SHR, "step_min": SMIN, "step_max": SMAX,
+                             "extra_params": SymObj(None, dict(ex), "extra")}, "options")
+        cfg = SymObj(None, {"make_parameter_getter": lambda: sp.Symbol("GETTER"), "make_representation_of": lambda: (lambda v: to_obj_array([sp.Symbol("REPR")])),
+                            "state_indices": (2,), "stepper": stepper}, "config")
+        prob_kw, req_kw = {}, {}
+        ip = Interp(overrides={"_ContinuationProblem": lambda ip_, a, k: (prob_kw.update(k), SymObj(None, dict(k), "problem"))[1],
+                               "ContinuationBackendRequest": lambda ip_, a, k: (req_kw.update(k), SymObj(None, dict(k), "request"))[1],
+                               "_BackendCall": lambda ip_, a, k: SymObj(None, dict(k), "call")})
+        iface = SymObj(ClassRef(mod, cls), {"_build_corrector": lambda p_: sp.Symbol("CORRECTOR"), "_predictor_from_problem": lambda p_: sp.Symbol("PREDICTOR")}, "interface")
+        dom = SymObj(None, {}, "seed orbit")
+        try:
+            prob = ip.apply(ip.getattr(iface, "create_problem"), [], {"domain_obj": dom, "config": cfg, "options": opts})
+            ip.apply(ip.getattr(iface, "to_backend_inputs"), [prob], {})
+        except OutsideFragment as exc:
+            raise AnalysisError(f"continuation options chain outside fragment: {exc}")
+        chk.count("functions partially evaluated", 2)
+        want_p = {"initial_solution": dom, "parameter_getter": sp.Symbol("GETTER"), "max_members": 11, "max_retries_per_step": 5, "shrink_policy": SHR, "step_min": SMIN,
+                  "step_max": SMAX, "stepper": stepper}
+        want_p.update({"corrector_" + k: v for k, v in ex.items()})
+        bad = {k: prob_kw.get(k) for k, v in want_p.items() if not (k in prob_kw and (prob_kw[k] is v or prob_kw[k] == v))}
+        chk.check(not bad, "C13.d", f"{IF}::_OrbitContinuationInterface.create_problem[{stepper}]",
+                  f"the problem carries {bad} instead of {dict((k, want_p[k]) for k in bad)}", sample="problem: limits, bounds, stepper and corrector settings of the call")
+        want_r = {"max_members": 11, "max_retries_per_step": 5, "shrink_policy": SHR, "step_min": SMIN, "step_max": SMAX, "parameter_getter": sp.Symbol("GETTER"),
+                  "corrector": sp.Symbol("CORRECTOR"), "predictor_fn": sp.Symbol("PREDICTOR")}
+        bad = {k: req_kw.get(k) for k, v in want_r.items() if not (k in req_kw and (req_kw[k] is v or req_kw[k] == v))}
+        arr = {"step": STEP, "target": TGT, "seed_repr": to_obj_array([sp.Symbol("REPR")])}
+        for k, v in arr.items():
+            g = req_kw.get(k)
+            if g is None or to_obj_array(g).shape != v.shape or list(to_obj_array(g).ravel()) != list(v.ravel()):
+                bad[k] = g
+        sf = req_kw.get("stepper_fn")
+        if stepper == "natural" and sf != sp.Symbol("PREDICTOR"):
+            bad["stepper_fn"] = sf
+        if stepper == "secant" and (sf == sp.Symbol("PREDICTOR") or sf is None):
+            bad["stepper_fn"] = sf
+        chk.check(not bad, "C13.d", f"{IF}::_OrbitContinuationInterface.to_backend_inputs[{stepper}]",
+                  f"the backend request carries {bad}: not the bounds / limits / functions of the call", sample=f"{stepper}: request fields copied from the problem under their own names")
+
+
 def _f_parameter_symmetry(chk):
     """Members are corrected with the family's symmetric scheme (start on the fixed set of a reversing symmetry, perpendicular
     arrival at the event plane, period = multiple of the event time): that closes the orbit only if the START stays in the
